@@ -42,6 +42,7 @@ class Frame:
         self.ctor_index: dict[str, int] = {}
         self.fell_off_end = False
         self.try_depth = parent.try_depth if parent else 0
+        self.loops: list[dict] = []
         self.depth = (parent.depth + 1) if parent else 0
 
     def ordinal(self, call: ast.Call, cls: str) -> int:
@@ -269,7 +270,7 @@ class Interp:
             return NONE
         if n in ("Ellipsis",):
             return Const(Ellipsis)
-        if n in ("isinstance", "len", "list", "str", "repr", "object", "tuple", "int", "bool", "min", "max",
+        if n in ("isinstance", "len", "list", "str", "repr", "object", "tuple", "int", "bool", "min", "max", "bytes",
                  "range", "enumerate", "sorted", "set", "dict", "any", "all", "cast", "print", "type", "float",
                  "complex", "SyntaxError", "IndentationError", "ValueError", "KeyError", "getattr"):
             return Obj("builtin", n)
@@ -376,14 +377,26 @@ class Interp:
             self.eval(x, env, fr)
         return TOP
 
+    @staticmethod
+    def feasible(before: dict, after: dict) -> bool:
+        """A refinement that empties a variable's value set means the branch cannot be taken."""
+        for k, v in after.items():
+            if isinstance(v, _Bot) and k in before and not isinstance(before[k], _Bot):
+                return False
+        return True
+
     def e_IfExp(self, e, env, fr):
         t = self.eval(e.test, env, fr)
         c = self.const_truth(t)
         outs = []
         if c is not False:
-            outs.append(self.eval(e.body, self.refine(e.test, env, True, fr), fr))
+            e1 = self.refine(e.test, env, True, fr)
+            if self.feasible(env, e1):
+                outs.append(self.eval(e.body, e1, fr))
         if c is not True:
-            outs.append(self.eval(e.orelse, self.refine(e.test, env, False, fr), fr))
+            e2 = self.refine(e.test, env, False, fr)
+            if self.feasible(env, e2):
+                outs.append(self.eval(e.orelse, e2, fr))
         return mk_union(outs)
 
     def const_truth(self, v: V) -> Optional[bool]:
@@ -409,7 +422,10 @@ class Interp:
                     outs.append(truthy(v))
                     if self.const_truth(v) is True:
                         break
-                    cur = self.refine(x, cur, False, fr)
+                    nxt = self.refine(x, cur, False, fr)
+                    if not self.feasible(cur, nxt):
+                        break
+                    cur = nxt
             return mk_union(outs)
         outs = []
         cur = env
@@ -421,7 +437,10 @@ class Interp:
                 outs.append(falsy(v))
                 if self.const_truth(v) is False:
                     break
-                cur = self.refine(x, cur, True, fr)
+                nxt = self.refine(x, cur, True, fr)
+                if not self.feasible(cur, nxt):
+                    break
+                cur = nxt
         return mk_union(outs)
 
     def e_UnaryOp(self, e, env, fr):
@@ -554,6 +573,9 @@ class Interp:
         return BOOL
 
     def e_Attribute(self, e, env, fr):
+        pk = self.path_key(e)
+        if pk is not None and pk in env:
+            return env[pk]
         base = self.eval(e.value, env, fr)
         outs = []
         for m in members(base):
@@ -639,6 +661,10 @@ class Interp:
             return TOP
         if isinstance(m, (Scalar, Const)) and (self.is_str(m)):
             return Obj("strmethod", attr, m)
+        if isinstance(m, TupleV):
+            self.emit("S0-bad-attribute", f"{fr.sitekey}:{norm_stmt(e)[:60]}", "fail", fr.where,
+                      f"attribute `{attr}` read from a tuple {m!r}")
+            return BOT
         if isinstance(m, ListV) or (isinstance(m, Const) and isinstance(m.value, tuple)):
             return Obj("listmethod", attr, (e.value, m))
         if isinstance(m, DictV):
@@ -674,18 +700,31 @@ class Interp:
 
     @staticmethod
     def path_key(e: ast.expr) -> Optional[str]:
-        """Key for a refinable access path `name[const]`."""
-        if isinstance(e, ast.Subscript) and isinstance(e.value, ast.Name) and not isinstance(e.slice, ast.Slice):
-            idx = e.slice
-            if isinstance(idx, ast.UnaryOp) and isinstance(idx.op, ast.USub) and isinstance(idx.operand, ast.Constant):
-                return f"${e.value.id}[-{idx.operand.value!r}]"
-            if isinstance(idx, ast.Constant):
-                return f"${e.value.id}[{idx.value!r}]"
-        return None
+        """Key for a refinable access path rooted at a local name: `name[const]`, `name.attr`, and chains of those."""
+        def rec(x) -> Optional[str]:
+            if isinstance(x, ast.Name):
+                return x.id
+            if isinstance(x, ast.Attribute):
+                b = rec(x.value)
+                return None if b is None else f"{b}.{x.attr}"
+            if isinstance(x, ast.Subscript) and not isinstance(x.slice, ast.Slice):
+                b = rec(x.value)
+                if b is None:
+                    return None
+                idx = x.slice
+                if isinstance(idx, ast.UnaryOp) and isinstance(idx.op, ast.USub) and isinstance(idx.operand, ast.Constant):
+                    return f"{b}[-{idx.operand.value!r}]"
+                if isinstance(idx, ast.Constant):
+                    return f"{b}[{idx.value!r}]"
+            return None
+        if isinstance(e, ast.Name):
+            return None
+        r = rec(e)
+        return None if r is None else "$" + r
 
     @staticmethod
     def drop_paths(env: dict, name: str):
-        for k in [k for k in env if k.startswith("$" + name + "[") or k == "@" + name]:
+        for k in [k for k in env if k.startswith(("$" + name + "[", "$" + name + ".")) or k == "@" + name]:
             del env[k]
         if env.get("?or"):
             env["?or"] = tuple(c for c in env["?or"] if not any(
@@ -747,6 +786,17 @@ class Interp:
             return mk_union(m.elems)
         if isinstance(m, ListV):
             if isinstance(idx, Const) and isinstance(idx.value, int):
+                if not m.nonempty and fr.parent is None and isinstance(e, ast.Subscript):
+                    base = norm_stmt(e.value)
+                    guarded = fr.root is not None and any(
+                        (isinstance(n, ast.Call) and isinstance(n.func, ast.Name) and n.func.id == "len" and n.args
+                         and norm_stmt(n.args[0]) == base) or
+                        (isinstance(n, (ast.IfExp, ast.If)) and norm_stmt(n.test) == base)
+                        for n in ast.walk(fr.root))
+                    self.emit("S0-index-empty", f"{fr.sitekey}:{norm_stmt(e)[:60]}", "fail" if guarded else "undecided", fr.where,
+                              f"`{norm_stmt(e)}` indexes a list that can be empty (IndexError)" +
+                              (f": the action tests `{base}` but the test does not establish that it is non-empty here" if guarded
+                               else "; nothing in the action tests it (relies on an invariant of the matched rule)"))
                 el = m.elem
                 return self.relabel_idx(el, idx.value)
             return m.elem
@@ -949,6 +999,12 @@ class Interp:
         if isinstance(test, ast.Name) and test.id in env:
             env[test.id] = truthy(env[test.id]) if truth else falsy(env[test.id])
             return env
+        if isinstance(test, (ast.Subscript, ast.Attribute)):
+            pk = self.path_key(test)
+            if pk is not None and not pk.startswith("$self."):
+                cur = env[pk] if pk in env else self.eval(test, env, fr)
+                env[pk] = truthy(cur) if truth else falsy(cur)
+                return env
         if isinstance(test, ast.UnaryOp) and isinstance(test.op, ast.Not):
             return self._refine(test.operand, env, not truth, fr)
         if isinstance(test, ast.BoolOp):
@@ -960,6 +1016,28 @@ class Interp:
                 for x in test.values:
                     env = self._refine(x, env, False, fr)
                 return env
+            return env
+        if isinstance(test, ast.Compare) and len(test.ops) == 1 and isinstance(test.left, ast.Call) \
+                and isinstance(test.left.func, ast.Name) and test.left.func.id == "len" and len(test.left.args) == 1 \
+                and isinstance(test.comparators[0], ast.Constant) and isinstance(test.comparators[0].value, int):
+            arg = test.left.args[0]
+            key = arg.id if isinstance(arg, ast.Name) else self.path_key(arg)
+            k = test.comparators[0].value
+            op = test.ops[0]
+            # does (len <op> k) == truth imply len >= 1 ?
+            implies = False
+            if truth:
+                implies = (isinstance(op, ast.Gt) and k >= 0) or (isinstance(op, ast.GtE) and k >= 1) or \
+                    (isinstance(op, ast.Eq) and k >= 1) or (isinstance(op, ast.NotEq) and k == 0)
+            else:
+                implies = (isinstance(op, ast.Lt) and k >= 1) or (isinstance(op, ast.LtE) and k >= 0) or \
+                    (isinstance(op, ast.Eq) and k == 0)
+            if implies and key is not None:
+                if key not in env and key.startswith("$"):
+                    env[key] = self.eval(arg, env, fr)
+                if key in env:
+                    env[key] = mk_union([ListV(m.elem, True) if isinstance(m, ListV) else m for m in members(env[key])]) \
+                        if not isinstance(env[key], _Top) else env[key]
             return env
         if isinstance(test, ast.Compare) and len(test.ops) == 1 and isinstance(test.left, ast.Name) \
                 and test.left.id in env:
@@ -1375,10 +1453,7 @@ class Interp:
         self.in_progress.add((qual, memo_key))
         sub = Frame(qual, f"{self.file_of(qual)}:{fn.lineno}", fr, fn=qual, root=fn)
         try:
-            try:
-                sub.fell_off_end = self._block(fn.body, env, sub)
-            except _LoopExit:
-                sub.fell_off_end = True
+            sub.fell_off_end = self._block(fn.body, env, sub)
         finally:
             self.in_progress.discard((qual, memo_key))
         is_gen = any(isinstance(n, (ast.Yield, ast.YieldFrom)) for n in ast.walk(fn))
@@ -1446,11 +1521,11 @@ class Interp:
             envs = []
             if c is not False:
                 e1 = self.refine(st.test, env, True, fr)
-                if self._block(st.body, e1, fr):
+                if self.feasible(env, e1) and self._block(st.body, e1, fr):
                     envs.append(e1)
             if c is not True:
                 e2 = self.refine(st.test, env, False, fr)
-                if self._block(st.orelse, e2, fr):
+                if self.feasible(env, e2) and self._block(st.orelse, e2, fr):
                     envs.append(e2)
             if not envs:
                 return False
@@ -1461,13 +1536,27 @@ class Interp:
             return self._loop(st, it, env, fr)
         if isinstance(st, ast.While):
             # bounded fixpoint
-            for _ in range(4):
+            exits: list[dict] = []
+            infinite = isinstance(st.test, ast.Constant) and st.test.value is True
+            for _ in range(5):
                 before = dict(env)
-                e1 = self.refine(st.test, env, True, fr)
-                alive = self._block_loop(st.body, e1, fr)
-                self.merge_into(env, [before] + ([e1] if alive else []))
+                ctx = {"break": [], "continue": []}
+                fr.loops.append(ctx)
+                try:
+                    e1 = self.refine(st.test, env, True, fr)
+                    alive = self._block(st.body, e1, fr)
+                finally:
+                    fr.loops.pop()
+                exits += ctx["break"]
+                self.merge_into(env, [before] + ([e1] if alive else []) + ctx["continue"])
                 if env == before:
                     break
+            if infinite:
+                if not exits:
+                    return False
+                self.merge_into(env, exits)
+            else:
+                self.merge_into(env, [self.refine(st.test, env, False, fr)] + exits)
             return True
         if isinstance(st, ast.Assert):
             self.eval(st.test, env, fr)
@@ -1478,7 +1567,9 @@ class Interp:
         if isinstance(st, (ast.Pass, ast.Import, ast.ImportFrom, ast.Global, ast.Nonlocal)):
             return True
         if isinstance(st, (ast.Break, ast.Continue)):
-            raise _LoopExit(isinstance(st, ast.Break))
+            if fr.loops:
+                fr.loops[-1]["break" if isinstance(st, ast.Break) else "continue"].append(dict(env))
+            return False
         if isinstance(st, ast.Try):
             snapshot = dict(env)
             fr.try_depth += 1
@@ -1511,27 +1602,42 @@ class Interp:
         return True
 
     def _block_loop(self, stmts, env, fr) -> bool:
-        try:
-            return self._block(stmts, env, fr)
-        except _LoopExit:
-            return True
+        return self._block(stmts, env, fr)
 
     def _loop(self, st: ast.For, it: V, env: dict, fr: Frame) -> bool:
         # concrete unrolling of small constant sequences
         if isinstance(it, Const) and isinstance(it.value, tuple) and len(it.value) <= 8:
+            exits: list[dict] = []
+            alive_env: Optional[dict] = dict(env)
             for x in it.value:
-                self.assign(st.target, NONE if x is None else Const(x), env, fr)
+                if alive_env is None:
+                    break
+                cur = alive_env
+                self.assign(st.target, NONE if x is None else Const(x), cur, fr)
+                ctx = {"break": [], "continue": []}
+                fr.loops.append(ctx)
                 try:
-                    if not self._block(st.body, env, fr):
-                        return False
-                except _LoopExit as le:
-                    if le.is_break:
-                        break
+                    alive = self._block(st.body, cur, fr)
+                finally:
+                    fr.loops.pop()
+                exits += ctx["break"]
+                nxt = ([cur] if alive else []) + ctx["continue"]
+                if nxt:
+                    alive_env = {}
+                    self.merge_into(alive_env, nxt)
+                else:
+                    alive_env = None
+            outs = ([alive_env] if alive_env is not None else []) + exits
+            if not outs:
+                return False
+            self.merge_into(env, outs)
             return True
         elems = []
+        nonempty = False
         for m in members(it):
             if isinstance(m, (ListV, Iter)):
                 elems.append(m.elem)
+                nonempty = nonempty or (isinstance(m, ListV) and m.nonempty)
             elif isinstance(m, TupleV):
                 elems.extend(m.elems)
             elif isinstance(m, Const) and isinstance(m.value, tuple):
@@ -1547,18 +1653,39 @@ class Interp:
         el = mk_union(elems)
         if isinstance(el, _Bot):
             return True
-        for _ in range(5):
+        only_nonempty = nonempty and all(isinstance(m, ListV) and m.nonempty for m in members(it))
+        exits = []
+        iter_ends: list[dict] = []
+        for rnd in range(6):
             before = dict(env)
-            envs = [before]
+            ends: list[dict] = []
             for em in (members(el) if not isinstance(el, _Top) else [TOP]):
                 e1 = dict(env)
                 if not self.bind_target(st.target, em, e1, fr):
                     continue
-                if self._block_loop(st.body, e1, fr):
-                    envs.append(e1)
-            self.merge_into(env, envs)
+                ctx = {"break": [], "continue": []}
+                fr.loops.append(ctx)
+                try:
+                    alive = self._block(st.body, e1, fr)
+                finally:
+                    fr.loops.pop()
+                exits += ctx["break"]
+                ends += ([e1] if alive else []) + ctx["continue"]
+            iter_ends = ends
+            # state at the head of the next iteration: what we had, joined with every way an iteration can end
+            self.merge_into(env, [before] + ends)
             if env == before:
                 break
+        # after the loop: zero iterations (only if the iterable can be empty) or the end of some iteration, or a break
+        outs = list(exits) + iter_ends
+        if not only_nonempty:
+            outs.append(dict(env))
+        elif not outs:
+            outs.append(dict(env))
+        final: dict = {}
+        self.merge_into(final, outs)
+        env.clear()
+        env.update(final)
         if st.orelse:
             self._block(st.orelse, env, fr)
         return True
@@ -1614,6 +1741,17 @@ class Interp:
                 self.merge_into(env, outs_env)
             return
         if isinstance(target, ast.Attribute):
+            if target.attr in LOC_EXPECT:
+                want = LOC_EXPECT[target.attr]
+                for m in members(v):
+                    if isinstance(m, LocInt):
+                        key = f"{fr.sitekey}:{norm_stmt(target)}="
+                        if (m.which, m.idx) != want:
+                            self.emit("A5-loc-key", key, "fail", fr.where,
+                                      f"`{norm_stmt(target)}` is assigned {m!r} (expected a {want[0]} "
+                                      f"{'line' if want[1] == 0 else 'column'})")
+                        else:
+                            self.emit("A5-loc-key", key, "ok", fr.where)
             self.attr_store(target, v, env, fr)
             return
         if isinstance(target, ast.Subscript):
